@@ -23,7 +23,8 @@ RULE = (
     "single} x crops of B = 1..4 (thorough 1..6) batches with results "
     "present for every subset but the full one x batch_ids in {None} + every "
     "ordered selection of length <= 2 (thorough <= 3; tuple, list, range) x "
-    "resource option sets; every script: bash -n, header range parsed, run "
+    "resource option sets, plus B = 12 with selected subsets and selections; "
+    "every script: bash -n, header range parsed, run "
     "with bash once per index, captured program compiled and executed; plus "
     "the xyzpy-grow command line from every subset state; non-trivial = "
     "cases with >= 2 batches"
@@ -89,6 +90,22 @@ def cases(tier, seed):
                        "opts": oi}
         for have in subsets:
             yield {"cli": True, "B": B, "have": have}
+    # two-digit batch ids
+    B = 12
+    ids = list(range(1, B + 1))
+    haves = [[], ids[:9], ids[1::2], [i for i in ids if i != 10]]
+    sels = [None, [10], [12, 3], [2, 11, 7], [9, 10, 11]]
+    for sched, mode, have, sel in itertools.product(
+            ("sge", "pbs", "slurm"), ("array", "single"), haves, sels):
+        j += 1
+        if tier == "quick" and j % 2:
+            continue
+        yield {"sched": sched, "mode": mode, "B": B, "have": have, "sel": sel,
+               "selform": ["tuple", "list", "range"][j % 3]
+               if sel != [9, 10, 11] else "range",
+               "opts": (j * 3) % len(OPTSETS)}
+    for have in haves:
+        yield {"cli": True, "B": B, "have": have}
 
 
 def worker_init():
